@@ -98,6 +98,17 @@ def body(cfg):
         S.claim("slice_by_cartesian_name_selects_the_same_data", S.and_(tuple(by_coord.img.shape) == tuple(exp.shape), S.eq(by_coord.img, exp)))
         S.claim("slice_metadata_agree", S.and_(S.eq(list(by_coord.dimensions), list(by_voxel.dimensions)), S.eq(list(by_coord.origin), list(by_voxel.origin)), by_coord.space_dim == dim - 1))
         S.observe("slice", by_voxel.img)
+        # the origin of the SAME image object changes afterwards (reset_origin / assignment): Cartesian
+        # addressing has to follow the origin the image has now
+        img.reset_origin()
+        org2 = list(img.origin)
+        cut2 = org2[ca] + sg * (v + t) * h
+        S.claim("after_reset_origin_cartesian_slice_follows_the_new_origin", S.and_(S.eq(img.slice(cut2, "xyz"[ca]).img, exp), S.eq(img.slice(v, m).img, exp)))
+        S.claim("after_reset_origin_voxel_zero_sits_at_the_new_origin", S.eq(list(img.coordinatesystem.coordinate(np.zeros(dim, dtype=int))), org2))
+        new_org = [S.real(f"n{e}", lo=-5, hi=5) for e in range(dim)]
+        img.origin = darsia.Coordinate(np.array(new_org, dtype=object if S.instrumented() else float)) if S.instrumented() else darsia.Coordinate(new_org)
+        cut3 = new_org[ca] + sg * (v + t) * h
+        S.claim("after_assigning_an_origin_cartesian_slice_follows_it", S.and_(S.eq(img.slice(cut3, "xyz"[ca]).img, exp), S.eq(img.slice(v, m).img, exp)))
         return
     if k == "layout":
         tr = tuple(cfg.get("trailing", ()))
